@@ -468,6 +468,22 @@ def family_wild(tier, seed):
                     "ops": [{"op": "new", "shape": "S0"}, {"op": "new", "shape": "S1"}, {"op": "new", "shape": "S0"},
                             {"op": "sweep", "inst": 1, "seq": seq}, {"op": "sweep", "inst": 2, "seq": seq},
                             {"op": "sweep", "inst": 3, "seq": seq[:8]}]})
+    # ... and pairs of instances whose single patterns carry the SAME masked value under DIFFERENT masks (the wildcard digit sits
+    # elsewhere), or different values under the same mask: different value sets, hence separate types; also as arrays
+    canon = [(v, m) for m in range(1, 16) for v in range(16) if v & ~m == 0]
+    same_v = [(a, b) for a in canon for b in canon if a[0] == b[0] and a[1] != b[1]]
+    same_m = [(a, b) for a in canon for b in canon if a[1] == b[1] and a[0] < b[0]]
+    rndp = random.Random(1922)
+    picks = [((8, 0b1011), (8, 0b1101))] + rndp.sample(same_v, 5) + rndp.sample(same_m, 2)
+    picks += random.Random(1923 + seed).sample(same_v, 4 if tier == "quick" else 60)
+    for t, (pa, pb) in enumerate(picks):
+        kind = "wild" if t % 3 != 2 or not (pa[1] & pb[1] & 8) else "wildarray"        # (arrays: top bit fixed, see the known finding)
+        sh = lambda pat: {"cls": "CGW3", "vars": {"a": {"w": 4}},
+                          "cps": [{"name": "w", "var": "a", "bins": [{"name": "wb", "kind": kind, "n": 0, "pats": [list(pat)]}]}]}
+        seq = [{"a": x} for x in range(16)]
+        out.append({"id": "wild/twomasks/%d" % t, "shapes": {"S0": sh(pa), "S1": sh(pb)},
+                    "ops": [{"op": "new", "shape": "S0"}, {"op": "new", "shape": "S1"}, {"op": "sweep", "inst": 2, "seq": seq},
+                            {"op": "new", "shape": "S0"}, {"op": "sweep", "inst": 1, "seq": seq[4:12]}, {"op": "sweep", "inst": 3, "seq": seq}]})
     # several patterns per bin, strings in three bases, per-sample events
     rnd = random.Random(1920 + seed)
     n = 40 if tier == "quick" else 600
